@@ -113,43 +113,73 @@ class IoExec(Exec):
         self.events.append(kw)
 
     def loop_stmt(self, s):
-        info = {"line": s.get("line"), "iv": None, "init": None, "step": None}
+        """induction variables: every variable stepped by ++/-- in the increment expression (comma lists included). The one
+        tested in the loop condition is the primary one and becomes the symbol y<depth>; the others are expressed through it
+        (same iteration count), so `for (; row < end; ++row, ++dst_row)` relates row and dst_row."""
+        info = {"line": s.get("line"), "iv": None, "init": None, "step": None, "trip": None}
         init = R.strip(s.get("init")) if s.get("init") is not None else None
-        ivid = None
-        if init is not None and init.get("k") == "Decl" and len(init.get("decls", [])) == 1 and init["decls"][0].get("id"):
-            d = init["decls"][0]
-            ivid = d["id"]
-            info["init"] = self.ev(d["init"]) if d.get("init") is not None else None
-            inc = R.strip(s.get("inc")) if s.get("inc") is not None else None
-            if inc is not None and inc.get("k") == "Unary" and inc.get("op") in ("++", "--"):
-                e = R.strip(inc["e"])
-                if e.get("k") == "DeclRef" and e.get("id") == ivid:
-                    info["step"] = 1 if inc["op"] == "++" else -1
-        info["trip"] = None
+        if init is not None:
+            self.stmt(init)
+
+        def incs(n, out):
+            n = R.strip(n) if n is not None else None
+            while n is not None and n.get("k") == "Paren":
+                n = R.strip(n["e"])
+            if n is None:
+                return out
+            if n.get("k") == "Binary" and n.get("op") == ",":
+                incs(n["l"], out); incs(n["r"], out)
+            elif n.get("k") == "Unary" and n.get("op") in ("++", "--"):
+                vk = self.var_key(n["e"])
+                if vk:
+                    out.append((vk, 1 if n["op"] == "++" else -1))
+            return out
+        steps = incs(s.get("inc"), [])
         cond = R.strip(s.get("cond")) if s.get("cond") is not None else None
-        if ivid and cond is not None and cond.get("k") == "Binary" and info["init"] is not None and info["step"] in (1, -1):
-            l, r_ = R.strip(cond["l"]), R.strip(cond["r"])
+        primary = None
+        bound = None
+        op = None
+        if cond is not None and cond.get("k") == "Binary" and cond.get("op") in ("<", "<=", ">", ">=", "!="):
+            l, r_ = cond["l"], cond["r"]
             op = cond["op"]
-            if r_.get("k") == "DeclRef" and r_.get("id") == ivid:
-                l, r_, op = r_, l, R.FLIP[op]
-            if l.get("k") == "DeclRef" and l.get("id") == ivid:
-                b = self.ev(r_)
-                if b is not None:
-                    if info["step"] == 1 and op in ("<", "!="):
-                        info["trip"] = b - info["init"]
-                    elif info["step"] == 1 and op == "<=":
-                        info["trip"] = b - info["init"] + Poly.const(1)
-                    elif info["step"] == -1 and op in (">", "!="):
-                        info["trip"] = info["init"] - b
-                    elif info["step"] == -1 and op == ">=":
-                        info["trip"] = info["init"] - b + Poly.const(1)
+            lk, rk = self.var_key(l), self.var_key(r_)
+            names = [v for v, _ in steps]
+            if lk in names:
+                primary, bound = lk, r_
+            elif rk in names:
+                primary, bound, op = rk, l, R.FLIP[op]
+        if primary is None and steps:
+            primary = steps[0][0]
+        pre = dict(self.env)
+        # forget everything assigned in the loop
+        for x, _ in R.find([s.get("body"), s.get("inc")], lambda x: x.get("k") in ("Assign", "CompoundAssign") or (x.get("k") == "Unary" and x.get("op") in ("++", "--"))):
+            self.forget(x.get("l") if "l" in x else x.get("e"))
         name = "y%d" % len(self.loops)
         info["iv"] = name
-        # run the body once with the induction variable as a symbol
-        for x, _ in R.find(s, lambda x: x.get("k") in ("Assign", "CompoundAssign") or (x.get("k") == "Unary" and x.get("op") in ("++", "--"))):
-            self.forget(x.get("l") if "l" in x else x.get("e"))
-        if ivid:
-            self.env["L:%s" % ivid] = Poly.atom(name)
+        if primary is not None:
+            pstep = dict(steps)[primary]
+            pinit = pre.get(primary)
+            info["init"], info["step"] = pinit, pstep
+            self.env[primary] = Poly.atom(name)
+            if pinit is not None:
+                k = (Poly.atom(name) - pinit) if pstep == 1 else (pinit - Poly.atom(name))
+                for v, st in steps:
+                    if v != primary and pre.get(v) is not None:
+                        self.env[v] = pre[v] + (k if st == 1 else -k)
+                if bound is not None:
+                    saved = self.env[primary]
+                    b = self.ev(bound)
+                    if b is not None and name not in b.atoms():
+                        if pstep == 1 and op in ("<", "!="):
+                            info["trip"] = b - pinit
+                        elif pstep == 1 and op == "<=":
+                            info["trip"] = b - pinit + Poly.const(1)
+                        elif pstep == -1 and op in (">", "!="):
+                            info["trip"] = pinit - b
+                        elif pstep == -1 and op == ">=":
+                            info["trip"] = pinit - b + Poly.const(1)
+                if info["trip"] == Poly.const(1):
+                    self.env[primary] = pinit          # a single iteration: the induction variable is its initial value
         self.loops.append(info)
         self.loop += 1
         base = dict(self.env)
@@ -226,6 +256,10 @@ class IoExec(Exec):
         if re.search(r"_device::seek$", name):
             self.ev_event("seek", to=self.ev(args[0]), line=n.get("line"))
             return None
+        if name in ("png_read_rows", "png_read_row", "jpeg_read_scanlines") or name.endswith("::read_scanline"):
+            row = self.ev(args[1]) if name.endswith("::read_scanline") and len(args) > 1 else None
+            self.ev_event("librow", lib=name.split("::")[-1], row=row, line=n.get("line"))
+            return Poly.const(1) if name == "jpeg_read_scanlines" else None
         if re.search(r"_device::print_line$", name):
             self.ev(args[0])
             self.ev_event("text", key=R.key(args[0])[:100], line=n.get("line"))
@@ -1062,3 +1096,69 @@ def lib_wire_pixels(rep):
         else:
             rep.violation("W5b-lib-wire-pixel", key, where, {"row_buffer_pixel": px, "problem": "the buffer keeps the memory order of the view: the codec, which is told only the colour type, receives the channels permuted"})
     rep.floor("obligations:W5b", 8)
+
+
+class ScanExec(IoExec):
+    def __init__(self, fns_):
+        IoExec.__init__(self, fns_, {"W": (1, BIG), "H": (1, BIG)}, "scan")
+        self.fstack = []
+        self.nin = 0
+        self.memfns = []
+
+    def invoke(self, f, args, site=None):
+        self.fstack.append(f)
+        try:
+            return IoExec.invoke(self, f, args, site)
+        finally:
+            self.fstack.pop()
+
+    def src_bits(self):
+        for f in reversed(self.fstack):
+            m = re.search(r"::(read_palette_image|read_bit_row)<(.*)$", f["full"])
+            if m:
+                t = m.group(2)
+                b = re.search(r"bit_aligned_pixel_reference<unsigned char, boost::mp11::mp_list<std::integral_constant<unsigned int, (\d+)>>", t)
+                if b:
+                    return int(b.group(1))
+                if "pixel<unsigned char" in t:
+                    return 8
+        return None
+
+    def stmt(self, s):
+        s1 = R.strip(s) if s is not None else None
+        if s1 is not None and s1.get("k") == "Decl":
+            for d in s1.get("decls", []):
+                init = R.strip(d.get("init")) if d.get("init") is not None else None
+                if init is not None and init.get("k") == "Call" and d.get("id"):
+                    cal = init.get("callee") or {}
+                    m = re.search(r"packed_(dynamic_)?channel_reference<[^,]+, (\d+)(, (\d+))?, (true|false)>", cal.get("cls", "")) if "::operator " in cal.get("name", "") else None
+                    if m:
+                        nb = int(m.group(4) if (m.group(4) and not m.group(1)) else m.group(2))
+                        self.env["L:%s" % d["id"]] = self.fresh(0, 2 ** nb - 1, "px%d_" % nb)
+                        return None
+        return IoExec.stmt(self, s)
+
+    def on_call(self, n):
+        cal = n.get("callee") or {}
+        name = cal.get("name", "")
+        m = re.search(r"_device::read_uint(8|16|32)$", name)
+        if m:
+            return self.fresh(0, 2 ** int(m.group(1)) - 1, "in")
+        if name == "std::mem_fn":
+            for x, _ in R.find(n.get("args", []), lambda x: x.get("k") == "DeclRef" and x.get("dk") == "CXXMethod"):
+                self.memfns.append(x.get("id"))
+            return None
+        if name.endswith("std::vector::resize") and n.get("obj") is not None:
+            vk = self.var_key(n["obj"])
+            self.vsize[vk] = self.ev(n["args"][0])
+            self.ev_event("resize", vec=vk, size=self.vsize[vk], size_bounds=self.bounds(self.vsize[vk]), line=n.get("line"))
+            return None
+        if n.get("op") == "[]" and name.endswith("std::vector::operator[]") and n.get("args"):
+            vk = self.var_key(n["args"][0])
+            if vk is not None and vk.endswith("_palette"):
+                i = self.ev(n["args"][1])
+                self.ev_event("index", vec=vk, idx=R.key(n["args"][1]), idx_bounds=self.bounds(i), size_bounds=self.bounds(self.vsize.get(vk)), line=n.get("line"),
+                              loopvar=bool(i is not None and any(a.startswith("y") and a[1:].isdigit() for mon in i.t for a in mon)))
+            return None
+        return IoExec.on_call(self, n)
+
